@@ -1,6 +1,7 @@
 """Expression evaluation of the symbolic executor."""
 import ast
 import z3
+from .folds import mkquant
 from .values import *
 from .core import Path
 
@@ -66,7 +67,7 @@ class ExprMixin:
             fn = self.ctx.heap_fn(path, v.owner.cls, v.field, 'at')
             return self.ctx.val_of(v.elem_kind, fn(v.owner.t, i))
         if isinstance(v, VSeq):
-            return self.ctx.val_of(v.elem_kind, v.t[i])
+            return self.ctx.val_of(v.elem_kind, self.seq_nth(v.t, i))
         if isinstance(v, (VList, VTuple)):
             if z3.is_int_value(i):
                 k = i.as_long()
@@ -79,6 +80,37 @@ class ExprMixin:
                 r = self.merge(i == k, v.items[k], r)
             return r
         raise OutOfReach(f'index of {v}')
+
+    def seq_nth(self, t, i):
+        """element access through an uninterpreted nth: z3 rewrites the native seq.nth into guarded nth_i/nth_u
+        terms, after which quantifier patterns over it stop matching (measured).  One bridging axiom per
+        element sort links it to the native operation inside the bounds."""
+        ctx = self.ctx
+        if z3.is_int_value(i):
+            return t[i]
+        key = ('nthF', str(t.sort()))
+        if key not in ctx.str_fns:
+            es = t.sort().basis()
+            f = z3.Function(f'nth_{es}', t.sort(), z3.IntSort(), es)
+            s_, k_ = z3.Const('s!n', t.sort()), z3.Int('k!n')
+            ctx.axioms.append(z3.ForAll([s_, k_], z3.Implies(z3.And(0 <= k_, k_ < z3.Length(s_)), f(s_, k_) == s_[k_]),
+                                        patterns=[f(s_, k_)]))
+            a_, b_ = z3.Const('a!n', t.sort()), z3.Const('b!n', t.sort())
+            x_ = z3.Const('x!n', es)
+            ctx.axioms.append(z3.ForAll([a_, b_, k_], z3.Implies(z3.And(0 <= k_, k_ < z3.Length(a_) + z3.Length(b_)),
+                                                                f(z3.Concat(a_, b_), k_) ==
+                                                                z3.If(k_ < z3.Length(a_), f(a_, k_), f(b_, k_ - z3.Length(a_)))),
+                                        patterns=[f(z3.Concat(a_, b_), k_)]))
+            ctx.axioms.append(z3.ForAll([x_], f(z3.Unit(x_), z3.IntVal(0)) == x_, patterns=[f(z3.Unit(x_), z3.IntVal(0))]))
+            # the other direction: an element of a part is an element of the concatenation
+            ctx.axioms.append(z3.ForAll([a_, b_, k_], z3.Implies(z3.And(0 <= k_, k_ < z3.Length(a_)),
+                                                                f(z3.Concat(a_, b_), k_) == f(a_, k_)),
+                                        patterns=[z3.MultiPattern(f(a_, k_), z3.Concat(a_, b_))]))
+            ctx.axioms.append(z3.ForAll([a_, b_, k_], z3.Implies(z3.And(0 <= k_, k_ < z3.Length(b_)),
+                                                                f(z3.Concat(a_, b_), k_ + z3.Length(a_)) == f(b_, k_)),
+                                        patterns=[z3.MultiPattern(f(b_, k_), z3.Concat(a_, b_))]))
+            ctx.str_fns[key] = f
+        return ctx.str_fns[key](t, i)
 
     def to_seq(self, v, path):
         """convert list-like value to (z3 Seq term, elem kind)"""
@@ -291,7 +323,7 @@ class ExprMixin:
                 j = self.ctx.fresh('j', z3.IntSort())
                 sub = path.fork(z3.And(0 <= j, j < la, la == lb))
                 body = self.eq(self.at(a, j, sub), self.at(b, j, sub), sub)
-                return z3.And(la == lb, z3.ForAll([j], z3.Implies(z3.And(0 <= j, j < la), body)))
+                return z3.And(la == lb, mkquant(True, j, z3.Implies(z3.And(0 <= j, j < la), body)))
             ta, _ = self.to_seq(a, path)
             tb, _ = self.to_seq(b, path)
             return ta == tb
@@ -350,7 +382,7 @@ class ExprMixin:
             j = self.ctx.fresh('j', z3.IntSort())
             sub = path.fork(z3.And(0 <= j, j < n))
             body = self.eq(self.at(xs, j, sub), x, sub)
-            return z3.Exists([j], z3.And(0 <= j, j < n, body))
+            return mkquant(False, j, z3.And(0 <= j, j < n, body))
         if isinstance(xs, VStr) and isinstance(x, VStr):
             return z3.Contains(xs.t, x.t)
         if isinstance(xs, VDict):
